@@ -246,6 +246,71 @@ fn dig_trace_table(r: &mut Rng) {
     }
 }
 
+/// A family member with explicit periodic cycle lengths (column c uses cycle c % cycles.len()) and assertions of all three
+/// kinds, so that with more than one fragment every fragment with a non-zero offset evaluates periodic values, transition
+/// constraints and boundary constraints (several divisors).
+fn mk_periodic_spec(width: usize, log_n: u32, deg: u32, cycles: Vec<usize>, aux: usize, seed: u64) -> Spec {
+    let mut s = Spec::simple(width, log_n, deg, seed);
+    s.use_per = vec![true; width];
+    s.periodic = cycles;
+    if aux > 0 { s.aux_width = aux; s.aux_rands = 2; }
+    let n = 1usize << log_n;
+    s.assertions = vec![AKind::Single { col: 0, step: n / 2 + 1 }];
+    if width > 1 { s.assertions.push(AKind::Sequence { col: 1, first: 3, stride: n / 8 }); }
+    if width > 2 { s.hold[2] = true; s.assertions.push(AKind::Periodic { col: 2, first: 1, stride: n / 4 }); }
+    s
+}
+
+/// Calls DefaultConstraintEvaluator::evaluate directly (trace LDE + random composition coefficients from a seeded coin)
+/// and digests the combined constraint evaluations: the fragmented evaluation (>= 8192 rows, one fragment per
+/// next_power_of_two(pool size)) must equal the single-fragment one.
+fn eval_one<B, H>(id: &str, spec: &Spec, blowup: usize, ext: FieldExtension)
+where B: StarkField + ExtensibleField<2> + ExtensibleField<3> + 'static, H: ElementHasher<BaseField = B> + Send + Sync {
+    use winter_air::AuxRandElements;
+    use winter_crypto::RandomCoin;
+    use winter_prover::{ConstraintEvaluator, DefaultConstraintEvaluator, DefaultTraceLde, TraceLde};
+    let cols = gen_main::<B>(spec);
+    let avals = assertion_values(spec, &cols);
+    assert!(is_valid(spec, &cols, &avals), "generator produced an invalid trace");
+    let trace = FamTrace::new(spec, cols.clone());
+    let opts = ProofOptions::new(4, blowup, 0, ext, 4, 31);
+    let pi = PubInputs { spec: spec.clone(), avals };
+    let air = FamAir::<B>::new(trace.info().clone(), pi, opts);
+    let domain = StarkDomain::new(&air);
+    let max_cycle = if spec.periodic.is_empty() { 0 } else { (0..spec.width).filter_map(|c| spec.per_index(c)).map(|i| spec.periodic[i]).max().unwrap_or(0) };
+    println!("I evaluator.{id} trace_length={} ce_domain_size={} ce_blowup={} max_cycle={} cycles={:?} assertions={} aux={}", spec.n(), air.ce_domain_size(),
+        air.ce_domain_size() / spec.n(), max_cycle, spec.periodic, spec.assertions.len(), spec.aux_width);
+    let res = catch(AssertUnwindSafe(|| {
+        let mut coin = DefaultRandomCoin::<H>::new(&[B::from(spec.seed as u32), B::from(17u32)]);
+        // E = B for FieldExtension::None, quadratic extension otherwise
+        macro_rules! go { ($E:ty) => {{
+            let (mut lde, _polys) = DefaultTraceLde::<$E, H>::new(trace.info(), trace.main_segment(), &domain);
+            let aux_rand = if spec.aux_width > 0 {
+                let rands: Vec<$E> = air.get_aux_rand_elements::<$E, _>(&mut coin).unwrap();
+                let aux = ColMatrix::new(gen_aux::<B, $E>(spec, trace.main_segment(), &rands));
+                let _ = lde.set_aux_trace(&aux, &domain);
+                Some(AuxRandElements::new(rands))
+            } else { None };
+            let coeffs = air.get_constraint_composition_coefficients::<$E, _>(&mut coin).unwrap();
+            let ev = DefaultConstraintEvaluator::<FamAir<B>, $E>::new(&air, aux_rand, coeffs);
+            dg(&ser(&ev.evaluate(&lde, &domain).into_inner()))
+        }}; }
+        match ext { FieldExtension::None => go!(B), _ => go!(QuadExtension<B>) }
+    }));
+    out(&format!("evaluator.{id} combined-constraint-evaluations"), match res { Ok(d) => d, Err(m) => format!("panic:{m}") });
+}
+
+/// Long periodic cycles (cycle = n, n/2, ... 8) on traces whose constraint-evaluation domain is >= 8192 rows, plus one below.
+fn dig_evaluator() {
+    let n = FieldExtension::None;
+    eval_one::<F64, Blake3_256<F64>>("f64.n4096-cyc4096+1024", &mk_periodic_spec(2, 12, 1, vec![4096, 1024], 0, 31), 2, n);
+    eval_one::<F64, Blake3_256<F64>>("f64.n4096-cyc2048+256+128", &mk_periodic_spec(3, 12, 2, vec![2048, 256, 128], 0, 32), 2, n);
+    eval_one::<F64, Blake3_256<F64>>("f64.aux.n4096-cyc4096+512+8", &mk_periodic_spec(3, 12, 1, vec![4096, 512, 8], 2, 33), 2, FieldExtension::Quadratic);
+    eval_one::<F64, Blake3_256<F64>>("f64.n2048-d3-cyc2048+32+16", &mk_periodic_spec(3, 11, 3, vec![2048, 32, 16], 0, 34), 4, n);
+    eval_one::<F128, Blake3_256<F128>>("f128.n4096-cyc4096+64", &mk_periodic_spec(2, 12, 1, vec![4096, 64], 0, 35), 2, n);
+    eval_one::<F64, Blake3_256<F64>>("f64.n2048-cyc2048 (single fragment)", &mk_periodic_spec(2, 11, 1, vec![2048, 4], 0, 36), 2, n);
+}
+
 fn mk_spec(width: usize, log_n: u32, deg: u32, periodic: Vec<usize>, aux: usize, seed: u64) -> Spec {
     let mut s = Spec::simple(width, log_n, deg, seed);
     if !periodic.is_empty() { s.use_per = (0..width).map(|c| c % 2 == 0).collect(); s.periodic = periodic; }
@@ -335,6 +400,7 @@ fn dig_proofs(scale: usize) {
         ("aux-n4096-d2-b4", mk_spec(3, 12, 2, vec![8], 2, 16), o(10, 4, 0, FieldExtension::Quadratic, 4, 63)),
         ("below-n1024-d3-b4", mk_spec(4, 10, 3, vec![], 1, 17), o(10, 4, 6, FieldExtension::None, 4, 7)),
         ("above-n4096-d3p-b4", mk_spec(2, 12, 3, vec![4], 0, 18), o(8, 4, 0, FieldExtension::None, 4, 31)),
+        ("longcycle-n4096-d1-b2", mk_periodic_spec(3, 12, 1, vec![4096, 512, 128], 0, 19), o(8, 2, 0, FieldExtension::None, 4, 31)),
     ];
     for (id, spec, opts) in &cases {
         ces.push(prove_one::<F64, Blake3_256<F64>>(&format!("f64.blake3.{id}"), spec, opts));
@@ -370,6 +436,7 @@ fn digests(seed: u64, scale: usize) {
     dig_trace_table(&mut r);
     dig_fri::<Blake3_256<F64>>("blake3", &mut r);
     dig_fri::<Rp64_256>("rp64", &mut r);
+    dig_evaluator();
     dig_proofs(scale);
 }
 
@@ -386,6 +453,7 @@ fn kernels(seed: u64) {
     dig_merkle::<Blake3_256<F64>>("blake3", 11);
     dig_matrix::<F64, Blake3_256<F64>>("f64.blake3", &mut r, 1);
     let _ = dig_high_degree_proofs();
+    dig_evaluator();
 }
 
 // ------------------------------------------------------------------------------------------------ spy hasher (Merkle tasks)
